@@ -663,9 +663,53 @@ def rule_r4(prog, res) -> None:
         raise AnalysisError(f"C18.R4: only {n} reader constructors with a chunksize parameter, minimum 5")
 
 
+def rule_r5(prog, res) -> None:
+    """loops that fill a cache or drain a queue make progress towards their own test: the condition of every `while`
+    loop depends on something the body changes (a name or attribute it stores, or a call / assignment expression that
+    is re-evaluated) — a size that is computed once before the loop and never updated keeps the loop running until an
+    exception ends it, i.e. the reader pulls the whole remaining input into memory for one chunk. `while True` loops
+    need a break / return."""
+    n = 0
+    for fi in prog.funcs:
+        for x in walk_no_nested(fi.node):
+            if not isinstance(x, ast.While):
+                continue
+            n += 1
+            res.touch(fi)
+            t = x.test
+            leaves = any(isinstance(y, (ast.Break, ast.Return)) for b in x.body for y in ast.walk(b))
+            if isinstance(t, ast.Constant):
+                if leaves or not t.value:
+                    res.ok("C18.R5", res.site(fi, f"while {unparse(t)}"), "constant test with an explicit exit", nontrivial=False)
+                else:
+                    res.violation("C18.R5", fi, x, "`while True` without break / return: the loop can only end through an exception", key_extra=f"while-true-no-exit-{fi.qualname}")
+                continue
+            reevaluated = any(isinstance(y, (ast.Call, ast.NamedExpr, ast.Await)) for y in ast.walk(t))
+            names = {y.id for y in ast.walk(t) if isinstance(y, ast.Name)}
+            attrs = {y.attr for y in ast.walk(t) if isinstance(y, ast.Attribute)}
+            stored = {y.id for b in x.body for y in ast.walk(b) if isinstance(y, ast.Name) and isinstance(y.ctx, (ast.Store, ast.Del))}
+            stored_attr = {y.attr for b in x.body for y in ast.walk(b) if isinstance(y, ast.Attribute) and isinstance(y.ctx, (ast.Store, ast.Del))}
+            # in-place mutation of a tested container (append / pop / clear …) also changes the test
+            mutated = {y.func.value.id for b in x.body for y in ast.walk(b) if isinstance(y, ast.Call) and isinstance(y.func, ast.Attribute) and isinstance(y.func.value, ast.Name) and y.func.attr in ("append", "pop", "popleft", "clear", "extend", "remove", "add", "discard", "update", "appendleft")}
+            if reevaluated or names & (stored | mutated) or attrs & stored_attr:
+                res.ok("C18.R5", res.site(fi, f"while {unparse(t)[:40]}"), "the loop test depends on what the body changes", nontrivial=False)
+            else:
+                res.violation(
+                    "C18.R5",
+                    fi,
+                    x,
+                    f"the test `{unparse(t)[:60]}` of this loop is not changed by its body (its names {sorted(names)} are never stored there and nothing in it is re-evaluated): "
+                    + ("the loop ends only when an exception is raised — e.g. every remaining row group is read into memory for one chunk" if not leaves else "only the break / return can end it; the stated bound is not what limits the loop"),
+                    key_extra=f"loop-test-invariant-{fi.qualname}",
+                )
+    if n < 5:
+        raise AnalysisError(f"C18.R5: only {n} while loops found in the package, minimum 5")
+
+
 RULES = [
     ("C18.R1", rule_r1, QUICK),
     ("C18.R2", rule_r2, QUICK),
     ("C18.R3", rule_r3, QUICK),
     ("C18.R4", rule_r4, QUICK),
+    ("C18.R5", rule_r5, QUICK),
 ]
